@@ -13,7 +13,8 @@ RULE = ("table: all 12x12 status pairs through can_transition and the model (exh
         "prefix) and the two workflow-row pairs (StartWorkflow / CompleteWorkflow x CancelWorkflow, FIFO and newest-first drain) "
         "at EVERY legal injection point in both directions; every status change of a stage / task / workflow row "
         "committed during the pair and the following drain is checked against can_transition; "
-        "PLUS the pause / resume dimension (harness/synth_suites.py, family 'pause', IMPLEMENTATION-ONLY: monitors on real-engine traces, no model line; signatures prefixed pause:): plain workflows (engine_suites.gen_spec w0, sometimes one suspending task) AND synthetic-stage ones; operator ops p = store.pause (only while the workflow is RUNNING), u = Orchestrator.unpause, r = store.resume injected at random steps into fifo | random | redelivery | starve schedules, combined with a cancel (often issued together with the un-pause, or while paused), signals and a second pause; every third unit is the directed 'parked' member (2-3 parallel stages all parked PAUSED, then un-pause or cancel + un-pause, random order); in 20 % of the runs nobody un-pauses, otherwise the operator keeps at it until nothing is paused (settle_pause: unpause, drain, store.resume if the row is still PAUSED with nothing parked); in 30 % of the runs an operator also pauses (and maybe resumes) the workflow AFTER it reached a final status; judged by the transition-table monitor on every durable status change of workflow, stage and task rows and by pmon_final (a durable final workflow status never changes)")
+        "PLUS the pause / resume dimension (harness/synth_suites.py, family 'pause', IMPLEMENTATION-ONLY: monitors on real-engine traces, no model line; signatures prefixed pause:): plain workflows (engine_suites.gen_spec w0, sometimes one suspending task) AND synthetic-stage ones; operator ops p = store.pause (only while the workflow is RUNNING), u = Orchestrator.unpause, r = store.resume injected at random steps into fifo | random | redelivery | starve schedules, combined with a cancel (often issued together with the un-pause, or while paused), signals and a second pause; every third unit is the directed 'parked' member (2-3 parallel stages all parked PAUSED, then un-pause or cancel + un-pause, random order); in 20 % of the runs nobody un-pauses, otherwise the operator keeps at it until nothing is paused (settle_pause: unpause, drain, store.resume if the row is still PAUSED with nothing parked); in 30 % of the runs an operator also pauses (and maybe resumes) the workflow AFTER it reached a final status; judged by the transition-table monitor on every durable status change of workflow, stage and task rows and by pmon_final (a durable final workflow status never changes); "
+        "PLUS the operator restart dimension (harness/synth_suites.py, family 'restart', IMPLEMENTATION-ONLY: monitors on real-engine traces, no model line; signatures prefixed restart:): plain (gen_spec w0 / w1, no jumps) and synthetic-stage workflows are run to the drain (70 %) or for k random steps, then op R<i> = Orchestrator.restart (-> RestartStage, code RR.<s>) 1-2 times on a random COMPLETED top-level stage (15 %: on a stage that is not completed - must be ignored), sometimes a cancel before / after (restart inside a canceled workflow must be refused), fifo | random drain; judged by rmon_c06 + rmon_final = the transition-table monitor and 'a final workflow status never changes' with exactly the property's exception: what the RestartStage delivery ITSELF writes (the restarted stage, its tasks and the synthetic children that belong to it -> NOT_STARTED; a completed workflow -> RUNNING) is allowed")
 ASSUMPTIONS = ["AFTER UPDATE OF status triggers observe exactly the durable changes (rows of a rolled-back transaction vanish)",
                "pause / resume dimension: 'un-paused' means the operator idiom of the repo's tests and demos (Orchestrator.unpause, then store.resume when the row is still PAUSED with nothing parked), repeated up to three times at quiescence; store.pause is only issued while the workflow row is RUNNING (store.pause() itself writes PAUSED over any status, also a final one: operator misuse, not generated); a message that raises on every delivery is dead-lettered after max_attempts deliveries (real check_and_move_expired) and the first such loss names the cause of what follows (`…@<msg>-dead-lettered:<exception>-while-workflow-<status>`)"] + engine_pairs.ASSUMPTIONS
 TRUSTED_BASE = ["engine part: the hand-written Engine model is tied to the handlers by the Mode-A trace differential only",
@@ -62,6 +63,7 @@ def run(ctx) -> None:
             from harness import synth_suites
 
             synth_suites.run_for(ctx, "C06", family="pause")
+            synth_suites.run_for(ctx, "C06", family="restart")       # operator restart dimension (implementation-only)
     except BaseException:
         pairs["pool"].terminate()
         raise
